@@ -25,16 +25,16 @@ def readFullH : Nat → Nat → Src → Bytes → Bytes × Src
     | ((out, _), c') => (acc ++ out, c')
 
 def srcChunks : Src → Nat
-  | .raw cs => cs.length
+  | .raw cs _ => cs.length
   | .l4 _ _ _ _ i => srcChunks i
   | .bufio _ _ i => srcChunks i
   | .limit _ i => srcChunks i
   | .tee _ i => srcChunks i
 
 /-- marker event carrying bytes a handler consumed (printed as `read`) -/
-def noteEv (b : Bytes) : Ev Src := .run 1000000 (.raw [b])
+def noteEv (b : Bytes) : Ev Src := .run 1000000 (.raw [b] false)
 /-- marker event: a nested router fell through to the handler after the subroute (printed as `fall`) -/
-def fallEv (b : Bytes) : Ev Src := .run 1000001 (.raw [b])
+def fallEv (b : Bytes) : Ev Src := .run 1000001 (.raw [b] false)
 
 abbrev H := Src → List (Ev Src) × HRes Src
 
@@ -92,8 +92,8 @@ def pChunks : P (List Bytes) := do
   rep n do return bytesTok (← tok)
 
 partial def showEv (path : String) : Ev Src → List String
-  | .run 1000000 (.raw [b]) => [s!"read {(path.dropEnd 1).toString} {digest b}"]
-  | .run 1000001 (.raw [b]) => [s!"fall {(path.dropEnd 1).toString} {digest b}"]
+  | .run 1000000 (.raw [b] false) => [s!"read {(path.dropEnd 1).toString} {digest b}"]
+  | .run 1000001 (.raw [b] false) => [s!"fall {(path.dropEnd 1).toString} {digest b}"]
   | .run i cx => [s!"run {path}{i} {digest cx.avail}"]
   | .inner i e => showEv s!"{path}{i}." e
   | .outOfFuel => ["OUT-OF-FUEL"]
@@ -111,7 +111,7 @@ def doRoute : P String := do
   let _cap ← nat
   let routes ← pRoutes
   let chunks ← pChunks
-  let (tr, r) := route srcOps routes 64 (.l4 [] 0 0 false (.raw chunks))
+  let (tr, r) := route srcOps routes 64 (.l4 [] 0 0 false (.raw chunks false))
   return showTrace tr r
 
 end L4.Drv
